@@ -14,15 +14,15 @@ Local Open Scope Z_scope.
 (* every finished file = encoded statistics ++ containers; containers = encodings of the pieces of
    the stream (+ one empty restore-point container when enabled); pieces concatenate to the objects'
    encodings in the order written — for every compression level, container size, header and objects *)
-Theorem C04_file_is_header_then_containers : forall deflate cfg hdr objs f, f_write_session deflate cfg hdr objs = Ok f ->
+Theorem C04_file_is_header_then_containers : forall deflate cap cfg hdr objs f, f_write_session deflate cap cfg hdr objs = Ok f ->
   exists ps conts hbytes hdr' h0,
-    f = hbytes ++ concat conts /\ enc cs default_cap C_stats hdr' = Ok (h0, hbytes) /\
-    Forall2 (fun p c => lce deflate (w_level cfg) p = Ok c) (if w_restore cfg then ps ++ [[]] else ps) conts /\
+    f = hbytes ++ concat conts /\ enc cs cap C_stats hdr' = Ok (h0, hbytes) /\
+    Forall2 (fun p c => lce deflate cap (w_level cfg) p = Ok c) (if w_restore cfg then ps ++ [[]] else ps) conts /\
     ps = pieces (length (concat (map fst objs))) (w_cs cfg) (concat (map fst objs)) /\
     concat ps = concat (map fst objs).
 Proof.
-  intros deflate cfg hdr objs f H.
-  destruct (file_shape deflate cfg hdr objs f H) as (ps & conts & hdr' & hb & h0 & h00 & hb0 & A & B & _ & C & D & E & _).
+  intros deflate cap cfg hdr objs f H.
+  destruct (file_shape deflate cap cfg hdr objs f H) as (ps & conts & hdr' & hb & h0 & h00 & hb0 & A & B & _ & C & D & E & _).
   exists ps, conts, hb, hdr', h0. repeat split; assumption.
 Qed.
 Print Assumptions C04_file_is_header_then_containers.
